@@ -214,6 +214,23 @@ CHECKS = {
             "of the evaluated documents equal an independent line/character computation.",
             "Known finding: the server's position encoding is bytes in / code points out rather than UTF-16 (non-ASCII lines only).",
             "DESIGN.md#c19"),
+    "C20": ("model_checking",
+            "stateless model checking of the real code: preemption-bounded exhaustive DFS over thread schedules under a controlled "
+            "scheduler (CHESS-style iterative context bounding, with and without partial-order reduction) + exhaustive operation "
+            "interleavings in fresh processes",
+            "cfg(starlark_verif) turns every operation on the shared mutable words of frozen heaps (chunk reference counts, lazily "
+            "cached string hashes incl. the process-wide static one-byte strings, per-thread chunk-cache hand-over) into a "
+            "scheduling point; 9 harness bodies of 2-3 real threads (heaps sharing a chunk read/dropped on different threads, a heap "
+            "handed over through a blocking wait while its builder keeps carving the same chunk, load+call+freeze+drop against "
+            "concurrent callers, first-use hashing of shared strings) are run under EVERY schedule with <=2 preemptions at any "
+            "point (quick; <=3 thorough) and with <=4-8 preemptions at conflicting operations (reduced; <=6-12 thorough). Every "
+            "execution: per-thread observations == serial reference, no panic, no double free, no ref-count operation on a freed "
+            "chunk (freed chunks are poisoned). Plus all interleavings of whole operations (load+call, hash, build/freeze/drop, "
+            "publish/take/drop, record/enum, type matching, first use of Globals) on 2-3 threads, one fresh process each, compared "
+            "with solo runs.",
+            "Interleavings only under sequential consistency at the intercepted points: weak-memory effects, plain-memory data races "
+            "between points, once_cell/AtomicFrozenAnyValueOption internals are not decided (DESIGN.md#c20).",
+            "DESIGN.md#c20"),
 }
 
 NOT_YET = {
